@@ -67,6 +67,7 @@ type cActor struct {
 }
 
 type concRun struct {
+	stalled atomic.Bool // a Subscribe ran into its 1 s timeout (overloaded machine): the run is not judged
 	w      *world
 	clk    atomic.Int64
 	actors []*cActor
@@ -105,6 +106,12 @@ func (c *concRun) handle(a *cActor, inc int64, ctx vivid.ActorContext) {
 			close(m.done)
 		case "sub":
 			c1 := c.tick()
+			defer func() {
+				if r := recover(); r != nil {
+					c.stalled.Store(true)
+					panic(r)
+				}
+			}()
 			s := ctx.Subscribe(m.topic)
 			c2 := c.tick()
 			a.handles = append(a.handles, s)
@@ -275,6 +282,9 @@ func runConc(seed uint64, na, nt, steps, nterm int) string {
 	}
 	time.Sleep(2 * time.Millisecond) // grace: a late duplicate would still arrive now
 	if !c.settle() {
+		return "-"
+	}
+	if c.stalled.Load() {
 		return "-"
 	}
 	// trace
